@@ -34,6 +34,8 @@ def run(repo, rep):
     _log_rule(repo, rep, 'C17', 'C17.Z2')
     from ..api_pitfalls import truth_rule as _truth_rule
     _truth_rule(repo, rep, 'C17', 'C17.Z4')
+    from ..api_pitfalls import attribute_rule as _attribute_rule
+    _attribute_rule(repo, rep, 'C17', 'C17.Z5')
     from ..pitfalls import zero_rule as _zero_rule
     _zero_rule(repo, rep, 'C17', 'C17.Z3')
     sc = repo.module('sopclass')
